@@ -177,6 +177,10 @@ class World:
                     w.in_f -= 1
             return Job(list(pubs), k)
 
+        # the value the attribute has before its first assignment (0 if the class does not carry a default)
+        _TC_DEFAULT = mp.BatchingMutexPrimitiveJobRunner.__dict__.get("_thread_counter", 0)
+        self._tc_default = _TC_DEFAULT
+
         class YRunner(mp.BatchingMutexPrimitiveJobRunner):
             """the library's runner; only the *unlocked* read of `_thread_counter` becomes a scheduling point"""
 
@@ -185,7 +189,7 @@ class World:
                 vl = s.__dict__.get("_variable_lock")
                 if w.tid() is not None and vl is not None and getattr(vl, "owner", None) != w.tid():
                     w.yield_(("read", "tc"))
-                return s.__dict__["_tc"]
+                return s.__dict__.get("_tc", _TC_DEFAULT)
 
             @_thread_counter.setter
             def _thread_counter(s, v):
@@ -279,7 +283,7 @@ class World:
         return {
             "E": r._entry_lock.owner, "V": r._variable_lock.owner,
             "icw": list(r._internal_wait_condition.waiters), "ecw": list(r._external_wait_condition.waiters),
-            "tc": r.__dict__["_tc"], "ec": r._entry_counter, "blen": r._batch_length,
+            "tc": r.__dict__.get("_tc", self._tc_default), "ec": r._entry_counter, "blen": r._batch_length,
             "batch": list(r._batched_pubs),
             "res": None if r._result is None else list(r._result),
             "exn": None if ex is None else (ex.k if isinstance(ex, PrimitiveFailure) else repr(ex)),
